@@ -283,20 +283,27 @@ def exec_cases():
 
 def _exec_batch(args):
     lo, hi = args
-    from harness.world import World, exec_arn
     cs = exec_cases()[lo:hi]
+    res = []
+    while len(res) < len(cs):
+        res.extend(_exec_world(cs[len(res):]))
+    return res
+
+def _exec_world(cs):
+    from harness.world import World, exec_arn
     sc = {"name": "c12-exec", "machines": {}, "starts": [], "record_sites": False, "workers": {"f": {"*": [["ok", {"t": [0]}]]}}, "horizon": 1e9}
     for idx, (d, ii) in enumerate(cs):
         sc["machines"]["m%d" % idx] = {"definition": d}
         sc["starts"].append({"machine": "m%d" % idx, "name": "e", "input": EXEC_INPUTS[ii], "after_quiet": True})
-    w = World(sc); w.run(max_steps=1000000)
+    w = World(sc); w.run(max_steps=1000000, runaway=3000)
+    ndone = len(cs) if not w.runaway else max(w.api_pos, 1)
     got = {}
     for n in w.notes:
         det = n["body"]["detail"]
         if det["status"] != "RUNNING":
             got[det["executionArn"]] = [det["status"], json.loads(det["output"]) if det.get("output") is not None else None, det.get("error")]
     w.close()
-    return [got.get(exec_arn("m%d" % idx, "e")) for idx in range(len(cs))]
+    return [None if (w.runaway and idx == ndone - 1) else got.get(exec_arn("m%d" % idx, "e")) for idx in range(ndone)]
 
 def exec_part(cr):
     from ref import asl as RA
